@@ -9,8 +9,8 @@ import AsmjitVerif.Lemmas.C18Bits2
 import AsmjitVerif.Lemmas.C18HashMap
 import AsmjitVerif.Lemmas.C18ListPool
 import AsmjitVerif.Lemmas.C18TreeIns11
-import AsmjitVerif.Lemmas.C18TreeRem18
-import AsmjitVerif.Lemmas.C18ListPool2
+import AsmjitVerif.Lemmas.C18TreeRem22
+import AsmjitVerif.Lemmas.C18ListPool3
 import AsmjitVerif.Lemmas.C18Str2
 import AsmjitVerif.Lemmas.C18Arena2
 import AsmjitVerif.Lemmas.C18Vector3
@@ -106,34 +106,37 @@ theorem bitset_fill_all_spec (b : BitSet) (hwf : WF b) :
     ∃ b', fillAll b = some b' ∧ WF b' ∧ b'.size = b.size ∧ b'.cap = b.cap ∧ b'.data = b.data ∧ bits b' = List.replicate b.size true :=
   fillAll_spec b hwf
 
-/-- `ArenaBitSet::_resize` (REPAIRED code), EVERY call incl. reallocation, under the oracle bound "no allocation of 2^29
-bytes or more succeeds" (otherwise `uint32_t(allocated * 8)` wraps): never outside the buffer; `kOk` = old bits kept,
-new bits `v`, invariant kept; `kOutOfMemory` = bit set unchanged -/
-theorem bitset_resize_spec (a : Arena.State) (b : BitSet) (n ideal : Nat) (v : Bool)
-    (hI : Inv b) (hn : n < Arena.u32) (hmm : a.mallocMax < 2 ^ 29) :
-    ∃ a' b' e, resizeI a b n ideal v = some (a', b', e) ∧ a'.mallocMax = a.mallocMax ∧
+/-- `ArenaBitSet::_resize` (REPAIRED code, fixes/C18-3 and C18-8), EVERY call incl. reallocation, ANY arena state and
+any requested size: never outside the buffer; `kOk` = old bits kept, new bits `v`, invariant kept (`capacity ≤ 2^32-64`,
+multiple of 64, `size ≤ capacity`, unused bits zero); `kOutOfMemory` = bit set unchanged (always for sizes above 2^32-64) -/
+theorem bitset_resize_spec (a : Arena.State) (b : BitSet) (n ideal : Nat) (v : Bool) (hI : Inv b) :
+    ∃ a' b' e, resizeI a b n ideal v = some (a', b', e) ∧
       ((e = Err.ok ∧ Inv b' ∧ b'.size = n ∧
           bits b' = (bits b).take n ++ List.replicate (n - b.size) v ∧ (n ≤ b.cap → a' = a ∧ b'.cap = b.cap)) ∨
        (e = Err.oom ∧ b' = b ∧ b.cap < n)) :=
-  resizeI_full_partial realloc_unfolds a b n ideal v hI hn hmm
+  resizeI_full a b n ideal v hI
 /-- `append` (fast path and `_append` growth): `snoc`, or unchanged on `kOutOfMemory` -/
-theorem bitset_append_spec (a : Arena.State) (b : BitSet) (v : Bool) (hI : Inv b) (hmm : a.mallocMax < 2 ^ 29) :
-    ∃ a' b' e, append a b v = some (a', b', e) ∧ a'.mallocMax = a.mallocMax ∧
+theorem bitset_append_spec (a : Arena.State) (b : BitSet) (v : Bool) (hI : Inv b) :
+    ∃ a' b' e, append a b v = some (a', b', e) ∧
       ((e = Err.ok ∧ Inv b' ∧ b'.size = b.size + 1 ∧ bits b' = bits b ++ [v]) ∨ (e = Err.oom ∧ b' = b)) :=
-  append_full_partial realloc_unfolds a b v hI hmm
+  append_full a b v hI
 /-- `copy_from`: the bits of `other`, or unchanged on `kOutOfMemory` -/
-theorem bitset_copy_from_spec (a : Arena.State) (b other : BitSet) (hI : Inv b) (hO : Inv other) (hmm : a.mallocMax < 2 ^ 29) :
-    ∃ a' b' e, copyFrom a b other = some (a', b', e) ∧ a'.mallocMax = a.mallocMax ∧
+theorem bitset_copy_from_spec (a : Arena.State) (b other : BitSet) (hI : Inv b) (hO : Inv other) :
+    ∃ a' b' e, copyFrom a b other = some (a', b', e) ∧
       ((e = Err.ok ∧ Inv b' ∧ b'.size = other.size ∧ bits b' = bits other) ∨ (e = Err.oom ∧ b' = b)) :=
-  copyFrom_full_partial realloc_unfolds a b other hI hO hmm
+  copyFrom_full a b other hI hO
 /-- `bitset_refines_bools`: for EVERY sequence of resize/append/set/fill/clear_bits/truncate/clear/fill_all/clear_all/
-release interleaved with oracle steps (`env s`: the arena replaced by any state with `mallocMax < 2^29`), from the empty
-bit set: the model never touches a word outside its block (`≠ stuck`) and, when the client respects the C++ assertions,
-the invariant holds and the bits equal the textbook `List Bool` (`kOutOfMemory` steps change nothing) -/
-theorem bitset_refines_bools (a : Arena.State) (hmm : a.mallocMax < 2 ^ 29) (ops : List BOp) :
+release interleaved with oracle steps (`env s`: the arena replaced by ANY state), from the empty bit set and any arena:
+the model never touches a word outside its block (`≠ stuck`) and, when the client respects the C++ assertions, the
+invariant holds and the bits equal the textbook `List Bool` (`kOutOfMemory` steps change nothing) -/
+theorem bitset_refines_bools (a : Arena.State) (ops : List BOp) :
     run a {} [] ops ≠ .stuck ∧
-    ∀ a' b' l', run a {} [] ops = .done a' b' l' → Inv b' ∧ a'.mallocMax < 2 ^ 29 ∧ bits b' = l' :=
-  bitset_refines_bools_partial realloc_unfolds a hmm ops
+    ∀ a' b' l', run a {} [] ops = .done a' b' l' → Inv b' ∧ bits b' = l' :=
+  Bits.bitset_refines_bools a ops
+/-- WITNESS (unrepaired arithmetic, confirmed on the real code with a granted 512 MiB block): a 2^29-byte block gives
+`uint32_t(allocated * 8) = 0` (kOk with `capacity() == 0 < size()`), and `uint32_t(2^32 + 5) = 5` (kOk with `size() == 5`) -/
+theorem bitset_capacity_wrap_witness : (2 ^ 29 * 8) % Arena.u32 = 0 ∧ Arena.alignUp 4294967233 64 / 8 = 2 ^ 29 ∧ (2 ^ 32 + 5) % Arena.u32 = 5 := by
+  decide
 
 -- non-vacuity
 example : bitVectorOp true [0#64, 0#64] 60 10 = some [0xF000000000000000#64, 0x3F#64] := by decide
@@ -170,7 +173,7 @@ theorem number_text_shape (n base w f : Nat) (hn : n < 2 ^ 64) (t : List Nat) (h
 theorem number_text_eq_spec (n base w f : Nat) (hn : n < 2 ^ 64) : numberText n base w f = specNumberText n base w f :=
   numberText_eq_spec n base w f hn
 
-/-- `string_refines_bytes`: for EVERY operation sequence (assign/append string, char, chars, number, hex, pad_end,
+/-- `string_refines_bytes`: for EVERY operation sequence (assign/append string, char, chars, number, hex, format, pad_end,
 truncate, clear, reset) the model never writes outside its buffer, keeps `size ≤ capacity`, `buf.length = capacity+1`,
 the terminator, and its contents equal the byte-list ADT run on the same operations; an operation answered
 out-of-memory (`oks`) is skipped by the ADT and leaves the string untouched -/
@@ -187,10 +190,35 @@ theorem string_refines_bytes_no_oom (ops : List SOp) (hsmall : totalCost ops < 2
 theorem string_null_terminated (ops : List SOp) : ∃ s', runModel ops {} = some s' ∧ terminated s' = true :=
   null_terminated ops
 
-/-- a failed operation (`kOutOfMemory`, `kInvalidArgument`) leaves the string exactly as it was -/
+/-- a failed operation (`kOutOfMemory`, `kInvalidArgument`) leaves size and content as they were — except an ASSIGN-format
+whose in-place attempt overflowed before the allocation failed, which leaves the empty string (the old content was
+already overwritten; repaired code fixes/C18-10.patch) — and the string is well formed (terminated) in every case -/
 theorem string_error_unchanged (op : SOp) (s s' : Str) (e : Err) (h : WF s) (hr : stepModel op s = some (s', e))
-    (he : e ≠ .ok) : s' = s :=
+    (he : e ≠ .ok) :
+    WF s' ∧ ((s'.size = s.size ∧ content s' = content s) ∨ (AssignFormatOverflow op s ∧ content s' = [])) :=
   error_unchanged op s s' e h hr he
+/-- for every operation other than `format` a failure leaves the object structurally identical -/
+theorem string_error_unchanged_struct (op : SOp) (s s' : Str) (e : Err) (h : WF s) (hr : stepModel op s = some (s', e))
+    (he : e ≠ .ok) (hnf : ∀ a out, op ≠ .format a out) : s' = s :=
+  error_unchanged_struct op s s' e h hr he hnf
+/-- `String::_op_vformat` WITHOUT the formatting itself (`vsnprintf` is an oracle producing the bytes `out`; modelled are
+the choice of buffer, the size update, the stack-buffer and `prepare` fallbacks; REPAIRED code fixes/C18-6 and C18-10):
+never outside the buffer, always well formed, `kOk` = the output assigned/appended -/
+theorem string_format_spec (s : Str) (a : Bool) (out : List Nat) (h : WF s) :
+    ∃ s' e, opFormat s a out = some (s', e) ∧ WF s' ∧
+      ((e = .ok ∧ content s' = (if a then [] else content s) ++ out) ∨
+       (e = .oom ∧ 2 ^ 38 ≤ s.size + out.length ∧
+         ((¬ FormatOverflowAt s a out ∧ s' = s) ∨
+          (FormatOverflowAt s a out ∧ a = false ∧ s'.size = s.size ∧ content s' = content s) ∨
+          (FormatOverflowAt s a out ∧ a = true ∧ s'.size = 0 ∧ content s' = [])))) :=
+  opFormat_spec s a out h
+/-- WITNESS (unrepaired `_op_vformat`, confirmed on the real code with an allocator that refuses 20 MB): an append whose
+in-place attempt overflows and whose allocation then fails returns kOutOfMemory with the terminator overwritten -/
+theorem string_format_oom_witness (s : Str) (out : List Nat) (h : WF s) (h1 : s.cap - s.size ≥ 128)
+    (h2 : s.cap - s.size < out.length) (h3 : out.length ≥ kMaxAllocSize - s.size - 1) (h4 : ∀ x, out.head? = some x → x ≠ 0) :
+    ∃ s', opFormatOrigAppendOverflow s out = some (s', .oom) ∧ s'.size = s.size ∧ content s' = content s ∧
+      terminated s' = false :=
+  opFormatOrig_oom_corrupts s out h h1 h2 h3 h4
 
 -- non-vacuity
 example : numberText 255 16 6 4 = some ("0x0000FF".toList.map Char.toNat) := by decide
@@ -246,10 +274,10 @@ example : safe (init 1024 0) [(0, .managed 0 0, 8)] = false := by decide
 end ArenaS
 
 /-! ## ArenaVector: every operation sequence refines the textbook list (`Spec/C18Vector.lean`: `VOp`, `specStep`,
-`Step.env` = the allocation oracle: between any two vector operations the shared arena may be replaced by ANY state with
-`mallocMax < 2^32`, so an allocation may fail at any point and other containers may use the arena).
-Standing hypotheses: `0 < itemSize < 2^32` (C++ `ItemSize::n` is `uint32_t`) and no single allocation of 4 GiB or more
-succeeds (`mallocMax < 2^32`; otherwise `uint32_t(capacity)` truncates, see notes). -/
+`Step.env s` = the allocation oracle: between any two vector operations the shared arena may be replaced by ANY state, so
+an allocation may fail or be granted (even multi-GiB) at any point and other containers may use the arena).
+Only hypothesis: `0 < itemSize < 2^32` (C++ `ItemSize::n` is `uint32_t`).  The model follows the REPAIRED capacity clamp
+(fixes/C18-7.patch) and 64-bit `_release` product (C18-9); the witnesses below show what the unrepaired arithmetic does. -/
 section Vec
 open AsmjitVerif.Vector AsmjitVerif.Arena
 
@@ -258,59 +286,65 @@ theorem vec_expand_ge (b : Nat) : b ≤ expandByteSize b := expand_ge' b
 /-- … and never adds more than `kGrowThreshold` (no 64-bit wrap) -/
 theorem vec_expand_le (b : Nat) : expandByteSize b ≤ b + kGrowThreshold := expand_le b
 
-/-- what `alloc_reusable` hands a container is at least the requested size and below 4 GiB under the oracle bound -/
+/-- what `alloc_reusable` hands a container is at least the requested size -/
 theorem vec_alloc_ge {a a' : State} {size allocated : Nat} {p : Loc}
     (h : allocReusable a size = (a', some p, allocated)) (h0 : 0 < size) (h1 : size ≤ u64) :
     size ≤ allocated ∧ allocated ≤ max 2048 size ∧ (a.mallocMax < u32 → allocated < u32) :=
   allocReusable_spec h h0 h1
 
-/-- `vec_refines_list`: after EVERY sequence of vector operations and oracle steps the model never wrote outside its
-allocation (`run … = some`), the invariant `WF` holds (`buf.length = capacity`, `size ≤ capacity` = `capacity_ge_size`,
+/-- `vec_refines_list`: after EVERY sequence of vector operations and oracle steps, from ANY arena state, the model never
+wrote outside its allocation (`run … = some`), the invariant `WF` holds (`buf.length = capacity`, `size ≤ capacity`,
 `capacity < 2^32`) and the items are exactly the textbook list -/
-theorem vec_refines_list {itemSize : Nat} (hi : 0 < itemSize) (hi32 : itemSize < u32) (steps : List Step)
-    (a0 : State) (h0 : a0.mallocMax < u32) :
-    ∃ a v l, run itemSize (a0, {}, []) steps = some (a, v, l) ∧ a.mallocMax < u32 ∧ WF v ∧ items v = l :=
-  Vector.vec_refines_list hi hi32 steps a0 h0
+theorem vec_refines_list {itemSize : Nat} (hi : 0 < itemSize) (hi32 : itemSize < u32) (steps : List Step) (a0 : State) :
+    ∃ a v l, run itemSize (a0, {}, []) steps = some (a, v, l) ∧ WF v ∧ items v = l :=
+  Vector.vec_refines_list hi hi32 steps a0
 
-/-- … the same after every prefix of the history, with `size ≤ capacity` and `buf.length = capacity` spelled out -/
+/-- `capacity_ge_size` after every prefix of every history -/
 theorem vec_capacity_ge_size {itemSize : Nat} (hi : 0 < itemSize) (hi32 : itemSize < u32) (steps : List Step)
-    (a0 : State) (h0 : a0.mallocMax < u32) (k : Nat) :
-    ∃ a v l, run itemSize (a0, {}, []) (steps.take k) = some (a, v, l) ∧ a.mallocMax < u32 ∧ WF v ∧ items v = l ∧
+    (a0 : State) (k : Nat) :
+    ∃ a v l, run itemSize (a0, {}, []) (steps.take k) = some (a, v, l) ∧ WF v ∧ items v = l ∧
       v.size ≤ v.cap ∧ v.buf.length = v.cap ∧
       run itemSize (a0, {}, []) steps = run itemSize (a, v, l) (steps.drop k) :=
-  vec_refines_list_prefix hi hi32 steps a0 h0 k
+  vec_refines_list_prefix hi hi32 steps a0 k
 
 /-- in every reachable state every further operation stays inside the allocation, an operation answered
 `kOutOfMemory` (`ok = false`) leaves the vector unchanged, otherwise the items follow the textbook list -/
 theorem vec_failure_unchanged {itemSize : Nat} (hi : 0 < itemSize) (hi32 : itemSize < u32) (steps : List Step)
-    (a0 : State) (h0 : a0.mallocMax < u32) (op : VOp) :
+    (a0 : State) (op : VOp) :
     ∃ a v l, run itemSize (a0, {}, []) steps = some (a, v, l) ∧
       ∃ a' v' ok, modelStep itemSize a v op = some (a', v', ok) ∧ WF v' ∧ (ok = false → v' = v) ∧
         items v' = specStep l op ok :=
-  vec_refines_list_step hi hi32 steps a0 h0 op
+  vec_refines_list_step hi hi32 steps a0 op
 
-/-- per operation: `insert` (append = `index = size`, prepend = `index = 0`), `resize_fit/grow`, `concat` -/
 theorem vec_insert_spec {a : State} {v : Vec} {index : Nat} (item : Nat) {itemSize : Nat}
-    (hw : WF v) (hidx : index ≤ v.size) (hi : 0 < itemSize) (hi32 : itemSize < u32) (hm : a.mallocMax < u32) :
+    (hw : WF v) (hidx : index ≤ v.size) (hi : 0 < itemSize) (hi32 : itemSize < u32) :
     OpOk a v ((items v).take index ++ item :: (items v).drop index) (insert a v index item itemSize) :=
-  insert_spec item hw hidx hi hi32 hm
+  insert_spec item hw hidx hi hi32
 theorem vec_resize_spec (growing : Bool) {a : State} {v : Vec} (n : Nat) {itemSize : Nat}
-    (hw : WF v) (hi : 0 < itemSize) (hi32 : itemSize < u32) (hm : a.mallocMax < u32) :
+    (hw : WF v) (hi : 0 < itemSize) (hi32 : itemSize < u32) :
     OpOk a v ((items v).take n ++ List.replicate (n - v.size) 0) (resize growing a v n itemSize) :=
-  resize_spec growing n hw hi hi32 hm
+  resize_spec growing n hw hi hi32
 theorem vec_concat_spec {a : State} {v other : Vec} {itemSize : Nat}
-    (hw : WF v) (ho : WF other) (hi : 0 < itemSize) (hi32 : itemSize < u32) (hm : a.mallocMax < u32) :
+    (hw : WF v) (ho : WF other) (hi : 0 < itemSize) (hi32 : itemSize < u32) :
     OpOk a v (items v ++ items other) (concat a v other itemSize) :=
-  concat_spec hw ho hi hi32 hm
+  concat_spec hw ho hi hi32
 /-- `reserve_fit(n)` answered ok really provides `capacity ≥ n` (part of `ReserveOk`) and never changes the items -/
 theorem vec_reserve_spec {a a' : State} {v v' : Vec} {e : Err} {n itemSize : Nat}
-    (h : reserveFitP a v n itemSize = (a', v', e)) (hw : WF v) (hi : 0 < itemSize) (hi32 : itemSize < u32)
-    (hm : a.mallocMax < u32) : ReserveOk a v n a' v' e :=
-  reserveFitP_spec h hw hi hi32 hm
-/-- lookups: first / last occurrence (textbook recursive definitions) and membership -/
+    (h : reserveFitP a v n itemSize = (a', v', e)) (hw : WF v) (hi : 0 < itemSize) (hi32 : itemSize < u32) :
+    ReserveOk a v n a' v' e :=
+  reserveFitP_spec h hw hi hi32
 theorem vec_index_of_spec (v : Vec) (x : Nat) (h : WF v) : indexOf v x = firstIdx x (items v) := indexOf_first h x
 theorem vec_last_index_of_spec (v : Vec) (x : Nat) (h : WF v) : lastIndexOf v x = lastIdx x (items v) := lastIndexOf_spec h x
 theorem vec_contains_spec (v : Vec) (x : Nat) : contains v x = true ↔ x ∈ items v := contains_spec v x
+
+/-- WITNESS (unrepaired arithmetic, confirmed on the real code with a granted 4 GiB block): `reserve_grow(4294967294)`
+of a byte vector expands to 2^32 bytes and `uint32_t(allocated / item_size)` is 0 — kOk with `capacity() == 0` -/
+theorem vec_capacity_truncation_witness : (expandByteSize (4294967294 * 1) / 1) % u32 = 0 ∧ 4294967294 * 1 ≤ expandByteSize (4294967294 * 1) := by
+  decide
+/-- WITNESS (unrepaired `_release`): `uint32_t(_capacity) * uint32_t(4)` for capacity 2^30+4 is 16, the 16-byte slot class,
+so a 4 GiB dynamic block is pushed on the 16-byte free list instead of being released -/
+theorem vec_release_wrong_class_witness : slotIndex ((1073741828 * 4) % u32) = 0 ∧ ¬ slotIndex (1073741828 * 4) < kSlotCount := by
+  decide
 
 example : expandByteSize 100 = 256 := by decide
 example : (run 4 (init 1024 0 (2 ^ 30), {}, []) [.vec (.append 4), .env (init 1024 0 0), .vec (.append 5), .vec (.prepend 3),
@@ -393,33 +427,28 @@ theorem tree_insert_refines {h : Tree} {t : T} {k : Nat} (hr : Represents h t) (
 theorem tree_refines_set_inserts (ops : List TOp) (hins : ∀ op ∈ ops, ∃ k, op = .insert k) (hlen : ops.length < 2 ^ 64) :
     ∃ t, Represents (runModel ops {}) t ∧ t.keys = runSpec ops [] ∧ t.BST ∧ t.RB :=
   Ins.tree_refines_set_inserts ops hins hlen
-/-- `remove_refines` (shape part, BOTH paths of `remove`: bottom node = found node, and the `replaceLoop` re-link of the
-bottom node into the found node's place): removing a tree node from a represented search tree gives a represented tree
-whose key list is the textbook ordered-set erase, again a search tree, root black, exactly the passed node gone.
-No red-black hypothesis is needed for this, only enough fuel (`height ≤ 256`). -/
+/-- `remove_refines` + `rb_balanced` for remove (BOTH paths of `remove`: bottom node = found node, and the `replaceLoop`
+re-link of the bottom node into the found node's place): removing a tree node from a represented red-black search tree
+gives a represented tree whose key list is the textbook ordered-set erase, again a search tree, again red-black (root
+black, no red-red, equal black height), exactly the passed node gone -/
+theorem tree_remove_refines {h : Tree} {t : T} {node : Nat} (hr : Represents h t) (hbst : t.BST) (hrb : t.RB)
+    (hmem : node ∈ t.idxs) (hfuel : t.height ≤ kFuel) :
+    ∃ t', Represents (removeNode h node) t' ∧ t'.keys = setErase (key h node) t.keys ∧ t'.BST ∧ t'.RB ∧
+      t'.idxs.Perm (t.idxs.erase node) ∧ 2 ≤ (removeNode h node).nodes.size :=
+  Rem.remove_refines hr hbst hrb hmem hfuel
+/-- the shape part needs no colour hypothesis at all -/
 theorem tree_remove_refines_shape {h : Tree} {t : T} {node : Nat} (hr : Represents h t) (hbst : t.BST)
     (hmem : node ∈ t.idxs) (hfuel : t.height ≤ kFuel) :
     ∃ t', Represents (removeNode h node) t' ∧ t'.keys = setErase (key h node) t.keys ∧ t'.BST ∧
       t'.idxs.Perm (t.idxs.erase node) ∧ t'.isRed = false ∧ 2 ≤ (removeNode h node).nodes.size :=
   Rem.remove_refines_shape hr hbst hmem hfuel
 
-/-- what is NOT proved about `remove`: that it keeps `noRedRed` and the equal black height (`rb_balanced` for remove) -/
-def RemoveKeepsColours : Prop :=
-  ∀ (h : Tree) (t : T) (n : Nat), Represents h t → t.BST → t.RB → 2 ≤ h.nodes.size → t.size < 2 ^ 64 → n ∈ t.idxs →
-    ∀ t', Represents (removeNode h n) t' → t'.noRedRed ∧ ∃ m, t'.blackH m
-
-/- Full statement wanted (`tree_refines_set` + `rb_balanced`): for every history of inserts and removes from the empty tree
-   the heap represents a red-black search tree whose keys are the textbook ordered set.  Proved unconditionally: histories of
-   inserts (`tree_refines_set_inserts`), every single remove on any search tree (`tree_remove_refines_shape`).  For MIXED
-   histories the next insert/remove needs the red-black invariant of its input (it bounds the height, hence the fuel, and
-   the top-down insert is only shape-correct on a tree without red-red); that remove preserves the colour invariant is the
-   missing lemma, so it is an explicit hypothesis here.  (The monitor checks it after every remove on the real code.) -/
-theorem tree_refines_set_partial (hc : RemoveKeepsColours) (ops : List TOp) (hlen : ops.length < 2 ^ 64) :
+/-- `tree_refines_set` + `rb_balanced`: for EVERY history of inserts and removes (fewer than 2^64 operations) from the empty
+tree, the heap represents a red-black search tree (root black, no red-red, equal black height, strictly ascending in-order
+keys, no shared node) whose key list is the textbook ordered set; the loops never run out of their fuel -/
+theorem tree_refines_set (ops : List TOp) (hlen : ops.length < 2 ^ 64) :
     ∃ t, Represents (runModel ops {}) t ∧ t.keys = runSpec ops [] ∧ t.BST ∧ t.RB :=
-  Ins.tree_refines_set (fun h t n hr hb hrb hsz hsize hn => by
-    obtain ⟨t', h1, h2, h3, _, h5, h6⟩ := Rem.removeStepShape h t n hr hb hrb hsz hsize hn
-    have hcol := hc h t n hr hb hrb hsz hsize hn t' h1
-    exact ⟨t', h1, h2, h3, ⟨h5, hcol.1, hcol.2⟩, h6⟩) ops hlen
+  Rem.tree_refines_set ops hlen
 
 -- non-vacuity: a real history with inserts and removes, evaluated
 example : Tree.inorder 64 (runModel [.insert 5, .insert 3, .insert 8, .insert 9, .remove 5, .insert 4, .remove 3] {})
@@ -428,8 +457,7 @@ example : runSpec [.insert 5, .insert 3, .insert 8, .insert 9, .remove 5, .inser
 end TreeS
 
 /-! ## ArenaList: every operation transforms the represented list (`IsList h l xs`: `xs` are the node indices from `first`
-to `last`, links consistent in both directions) like the textbook list operation; both traversals read it back.
-The sequence theorem over all operations is NOT proved (only for prepend/pop_first, `list_refines_list_partial`). -/
+to `last`, links consistent in both directions) like the textbook list operation; both traversals read it back. -/
 section ListS
 open AsmjitVerif.ListPool AsmjitVerif.ListPool2 AsmjitVerif.Spec.C18HashList
 
@@ -458,11 +486,17 @@ theorem list_walk_spec {h l xs} (hl : ListPool2.IsList h l xs) (fuel : Nat) (hfu
     walk fuel h l.first true = xs.map (fun x => (nd h x).val) ∧
     walk fuel h l.last false = (xs.map (fun x => (nd h x).val)).reverse :=
   ⟨walk_forward hl fuel hfuel, walk_backward hl fuel hfuel⟩
-/-- sequence theorem, only for the sub-language {prepend, pop_first} -/
-theorem list_refines_list_partial (ops : List LOp) (hops : ∀ op ∈ ops, simpleOp op) :
-    ∃ xs, ListPool.IsList (ops.foldl stepListP (#[{}], {})).1 (ops.foldl stepListP (#[{}], {})).2 xs ∧
-      walk xs.length (ops.foldl stepListP (#[{}], {})).1 (ops.foldl stepListP (#[{}], {})).2.first true = runList [] ops :=
-  ListPool.list_refines_list_partial ops hops
+/-- `list_refines_list`: for EVERY valid operation sequence (append/prepend/insert_after/insert_before/unlink/pop/pop_first,
+members addressed by value as in the harness; `LValid`: inserted values are fresh; an operation whose precondition fails
+is a no-op on both sides) from the empty list: the heap represents a list whose values are the textbook list, the forward
+traversal reads it and the backward traversal reads its reverse — both link directions consistent -/
+theorem list_refines_list (ops : List LOp) (hv : LValid [] ops) :
+    ∃ xs, ListPool2.IsList (ListPool2.runModel (#[{}], {}) ops).1 (ListPool2.runModel (#[{}], {}) ops).2 xs ∧
+      xs.map (fun x => (nd (ListPool2.runModel (#[{}], {}) ops).1 x).val) = runList [] ops ∧
+      ∀ fuel, (ListPool2.runModel (#[{}], {}) ops).1.size ≤ fuel →
+        walk fuel (ListPool2.runModel (#[{}], {}) ops).1 (ListPool2.runModel (#[{}], {}) ops).2.first true = runList [] ops ∧
+        walk fuel (ListPool2.runModel (#[{}], {}) ops).1 (ListPool2.runModel (#[{}], {}) ops).2.last false = (runList [] ops).reverse :=
+  ListPool2.list_refines_list ops hv
 end ListS
 
 end AsmjitVerif.C18
